@@ -49,7 +49,7 @@ Definition st_eqb (a b : st) : bool :=
   Nat.eqb (nnew a) (nnew b) && Nat.eqb (cur a) (cur b) && opt_eqb resp_eqb (rsp a) (rsp b) &&
   Bool.eqb (route_matched a) (route_matched b) && Nat.eqb (rcursor a) (rcursor b) && Nat.eqb (scursor a) (scursor b) &&
   list_eqb Nat.eqb (fcalls a) (fcalls b) && list_eqb Nat.eqb (scalls a) (scalls b) && list_eqb phase_eqb (delayed a) (delayed b) &&
-  Nat.eqb (nfin a) (nfin b) && Z.eqb (rc a) (rc b) && Bool.eqb (global_ever a) (global_ever b) && Bool.eqb (x_loop a) (x_loop b) &&
+  Bool.eqb (reuse a) (reuse b) && Bool.eqb (gave a) (gave b) && Bool.eqb (abandoned a) (abandoned b) && Nat.eqb (nfin a) (nfin b) && Z.eqb (rc a) (rc b) && Bool.eqb (global_ever a) (global_ever b) && Bool.eqb (x_loop a) (x_loop b) &&
   Bool.eqb (x_upf a) (x_upf b) && Bool.eqb (x_nog a) (x_nog b).
 
 Ltac split_andb H :=
